@@ -7,7 +7,7 @@ import vplib
 from vplib import (LibBuild, Merged, Verdict, build_harness, run_harness, run_sharded,
                    run_parallel, scratch, stage_repo, EngineError, NCPU, WRAP_ALLOC, WRAP_PIN, VERIF)
 
-COMMON_SRC = ["common.c", "pin.c", "families.c"]
+COMMON_SRC = ["common.c", "pin.c", "families.c", "prelude.c"]
 
 BUILDS = {
     "shipped": dict(),
@@ -44,7 +44,7 @@ def make_replayer(binary, base_args, env=None, prefix=()):
             return True   # nothing to replay (structural finding); trusted as reported
         ctr[0] += 1
         out = binary + ".replay%d.json" % ctr[0]
-        res = run_harness(binary, list(base_args) + ["--replay", v["case"]], out, env=env, prefix=prefix)
+        res = run_harness(binary, list(base_args) + ["--prelude", str(v.get("prelude", 0)), "--replay", v["case"]], out, env=env, prefix=prefix)
         return any(x["sig"] == v["sig"] for x in res.get("violations", []))
     return rp
 
@@ -74,7 +74,7 @@ def replay(pid, path):
     lib = mkbuild(spec.get("build", "shipped")).build(st)
     binary = build_harness(st, lib, "replay", spec["sources"], wraps=spec.get("wraps", []),
                            cc=spec.get("hcc", "gcc"), cflags=spec.get("hcflags", "-O1 -g -Wall -Wextra -Wno-unused-parameter"))
-    res = run_harness(binary, spec["args"] + ["--maxbe", str(lib.maxbe), "--replay", body["case"]],
+    res = run_harness(binary, spec["args"] + ["--maxbe", str(lib.maxbe), "--prelude", str(body.get("prelude", 0)), "--replay", body["case"]],
                       os.path.join(st, "replay.json"))
     hit = [x for x in res.get("violations", []) if x["sig"] == body["signature"]]
     if hit:
@@ -143,7 +143,7 @@ def check_c02(tier, seed):
                      "inputs outside the structured families are not covered"])
 
 
-MC_SRC = ["common.c", "pin.c", "families.c", "alloc.c", "obj.c", "mc.c"]
+MC_SRC = ["common.c", "pin.c", "families.c", "prelude.c", "alloc.c", "obj.c", "mc.c"]
 MC_WRAPS = WRAP_ALLOC + WRAP_PIN
 
 
@@ -298,7 +298,7 @@ def check_c09(tier, seed):
     merged = Merged()
     builds = ["shipped", "w32ua0", "clang"] if tier == "thorough" else ["shipped"]
     libs = run_parallel([lambda n=n: mkbuild(n).build(st, jobs=5) for n in builds], workers=3)
-    srcs = ["common.c", "pin.c", "families.c", "alloc.c", "obj.c", "mc.c", "h_buf.c"]
+    srcs = ["common.c", "pin.c", "families.c", "prelude.c", "alloc.c", "obj.c", "mc.c", "h_buf.c"]
     vg = ["valgrind", "-q", "--tool=memcheck", "--undef-value-errors=no", "--partial-loads-ok=no", "--error-limit=no", "--num-callers=10", "--error-exitcode=0"]
     per = {}
     for lib in libs:
